@@ -18,6 +18,7 @@ type Case struct {
 	Mut   string `json:"mut,omitempty"`
 	Side  string `json:"side,omitempty"`
 	Src   string `json:"src,omitempty"` // literal script for the script-level streams
+	Scope string `json:"scope,omitempty"` // composite routes: top | func | method
 }
 
 type runner struct {
@@ -35,6 +36,9 @@ func (r *runner) seen(sig string, cs *Case) {
 	}
 	if _, ok := r.sigs[sig]; !ok {
 		r.sigs[sig] = describe(cs)
+		if cs.Src != "" {
+			r.sigs[sig] += "\n" + cs.Src
+		}
 	}
 }
 
